@@ -38,11 +38,21 @@ def run_pair(devs, budgets, resolve=None, a=None, b=None, prop="C00", warm=True)
         import importlib  # noqa: PLC0415
 
         modname, _, fname = resolve.partition(":")
-        resolve = getattr(importlib.import_module(modname), fname)
-    fa, fb = resolve(a), resolve(b)
+        mod = importlib.import_module(modname)
+        resolve = getattr(mod, fname)
+        fresh = getattr(mod, "fresh", None)
+    else:
+        fresh = None
     if warm:
         # results when run alone (also warms lazily built tables so that first-use initialisation is not what is explored)
-        box["alone"] = [_safe(resolve(a)), _safe(resolve(b))]
+        box["alone"] = []
+        for d in (a, b):
+            if fresh:
+                fresh()
+            box["alone"].append(_safe(resolve(d)))
+    if fresh:
+        fresh()  # objects the two operations share by design (one catalogue container used by all protocol threads) are new for every execution
+    fa, fb = resolve(a), resolve(b)
 
     def driver(s):
         res = [None, None]
